@@ -6,7 +6,7 @@
 From Coq Require Import ZArith.
 From V.model Require Import Base Deb822Lex Deb822Parse Grammar Lossy LossySpec Derive TypedDocs.
 From V.gen Require Import Structs_gen.
-From V.proofs Require Import BaseP Deb822LexP Deb822ParseP GrammarAccP LossyP LossyRtP DeriveP TypedCodecP TypedCanonP.
+From V.proofs Require Import BaseP Deb822LexP Deb822ParseP GrammarAccP LossyP LossyRtP DeriveP TypedCodecP TypedCanonP TypedLossyP.
 
 (* ------------------------------------------------------------------ what the readers show for a printed document *)
 Definition norm_pair (kv : str * str) : str * str := (fst kv, ll_norm (snd kv)).
@@ -195,12 +195,17 @@ Lemma good_to_lossy ll fs v : good ll fs v -> to_lossy fs v = Some (items_of fs 
 Proof. intros (H & _). unfold TypedDocs.to_lossy, to_paragraph. rewrite H. reflexivity. Qed.
 Lemma good_print ll fs v : good ll fs v -> print_struct fs v = Some (print_para (items_of fs v)).
 Proof. intros H. unfold TypedDocs.print_struct. rewrite (good_to_lossy _ _ _ H). reflexivity. Qed.
-Lemma good_canon ll fs v : good ll fs v -> forallb canon_field (items_of fs v) = true.
+Lemma good_canon fs v : good true fs v -> forallb canon_field (items_of fs v) = true.
 Proof. intros (_ & H & _). exact H. Qed.
 
-Lemma good_nonempty ll fs v k : good ll fs v -> In k (present_keys E fs v) -> canon_para (items_of fs v) = true.
+Lemma good_nonempty fs v k : good true fs v -> In k (present_keys E fs v) -> canon_para (items_of fs v) = true.
 Proof.
-  intros Hg Hin. unfold canon_para. pose proof (good_canon _ _ _ Hg) as Hc.
+  intros Hg Hin. unfold canon_para. pose proof (good_canon _ _ Hg) as Hc.
+  destruct (items_of fs v) eqn:Ei; [|exact Hc]. destruct Hg as (_ & _ & Hk & _). rewrite Ei in Hk. cbn in Hk. rewrite <- Hk in Hin. contradiction.
+Qed.
+Lemma good_nonempty_l fs v k : good false fs v -> In k (present_keys E fs v) -> lcanon_para (items_of fs v) = true.
+Proof.
+  intros Hg Hin. unfold lcanon_para. assert (Hc : forallb lcanon_field (items_of fs v) = true) by (destruct Hg as (_ & H & _); exact H).
   destruct (items_of fs v) eqn:Ei; [|exact Hc]. destruct Hg as (_ & _ & Hk & _). rewrite Ei in Hk. cbn in Hk. rewrite <- Hk in Hin. contradiction.
 Qed.
 
@@ -300,7 +305,7 @@ Proof.
     - unfold D. rewrite print_doc_cons, !flat_map_concat_map, !map_map. reflexivity.
     - intros b Hb. rewrite Forall_forall in HgB. apply (good_print true). apply (HgB b Hb). }
   assert (Hcanon : canon_doc D = true).
-  { unfold D. cbn [canon_doc forallb]. rewrite (good_nonempty _ _ _ _ HgS HkS). cbn [andb].
+  { unfold D. cbn [canon_doc forallb]. rewrite (good_nonempty _ _ _ HgS HkS). cbn [andb].
     rewrite forallb_map'. apply forallb_forall. intros b Hb. rewrite Forall_forall in HgB. destruct (HgB b Hb) as [Gd K].
     eapply good_nonempty; eassumption. }
   destruct (ll_reread D Hcanon) as (t' & Ht' & Hitems).
@@ -414,7 +419,7 @@ Proof.
     rewrite (map_opt_map _ (fun b => print_para (items_of fs_license b))) by (intros b Hb; rewrite Forall_forall in HgL; apply (good_print true); apply (HgL b Hb)).
     unfold D. rewrite print_doc_cons, flat_map_app, !flat_map_concat_map, !map_map. reflexivity. }
   assert (Hcanon : canon_doc D = true).
-  { unfold D. cbn [canon_doc forallb]. rewrite (good_nonempty _ _ _ _ HgH HkH). cbn [andb]. rewrite forallb_app, !forallb_map'.
+  { unfold D. cbn [canon_doc forallb]. rewrite (good_nonempty _ _ _ HgH HkH). cbn [andb]. rewrite forallb_app, !forallb_map'.
     apply andb_true_iff. split; apply forallb_forall; intros b Hb.
     - rewrite Forall_forall in HgF. destruct (HgF b Hb) as [Gd K]. eapply good_nonempty; eassumption.
     - rewrite Forall_forall in HgL. destruct (HgL b Hb) as [Gd K]. eapply good_nonempty; eassumption. }
@@ -463,7 +468,7 @@ Proof.
   { intros k x Hg. cbn [dom]. eapply strict_parse_get_dom; [exact Es|rewrite Ep; left; reflexivity|exact Hg]. }
   pose proof (read_ll_good _ _ _ Hok He HG (no_hash_guard _ _ Hnh) Hd Ev) as Hg.
   destruct (has_mandatory_key _ Hm) as (k & Hk). rewrite from_ll_fields in Ev. pose proof (read_mandatory_present _ _ _ _ _ _ Ev Hk) as Hin.
-  pose proof (good_nonempty _ _ _ _ Hg Hin) as Hc. destruct (paragraph_reread _ Hc) as (p' & Hp' & Hs).
+  pose proof (good_nonempty _ _ _ Hg Hin) as Hc. destruct (paragraph_reread _ Hc) as (p' & Hp' & Hs).
   exists (print_para (items_of fs v)). split; [apply (good_print true); exact Hg|].
   unfold parse_ll1. rewrite Hp'. cbn [of_res_para]. rewrite (reread_ll _ _ _ Hg Hs). reflexivity.
 Qed.
@@ -530,7 +535,7 @@ Proof.
     assert (Hany : forall k' x', get p k' = Some x' -> dom true x') by (intros k' x' Hg'; apply (Hd k' x' Hg')).
     apply fb_dom; [apply fb_dom; [exact Hany|]|]; intros a Ha; eapply Hany; exact Ha. }
   assert (Hin : exists k, In k (present_keys E fs_dep3 v)) by (destruct (present_keys E fs_dep3 v) as [|k ?]; [congruence|exists k; left; reflexivity]).
-  destruct Hin as (k & Hin). pose proof (good_nonempty _ _ _ _ Hg Hin) as Hc. destruct (paragraph_reread _ Hc) as (p' & Hp' & Hs).
+  destruct Hin as (k & Hin). pose proof (good_nonempty _ _ _ Hg Hin) as Hc. destruct (paragraph_reread _ Hc) as (p' & Hp' & Hs).
   exists (print_para (items_of fs_dep3 v)). split; [apply (good_print true); exact Hg|].
   unfold parse_dep3. rewrite Hp'. cbn [of_res_para]. rewrite (reread_ll _ _ _ Hg Hs). cbn [of_dres].
   rewrite (reread_ll_absent _ _ _ _ Hg Hs dep3_no_From), (reread_ll_absent _ _ _ _ Hg Hs dep3_no_Subject), !fallback_none. reflexivity.
@@ -539,7 +544,7 @@ Qed.
 (* ================================================================== one paragraph through the lossy reader *)
 Theorem lossy1_stable fs s p v :
   ok_struct_stable fs = true -> no_hash_pairs fs = true -> has_mandatory fs = true -> ext_stable false (ext_ids fs) ->
-  lossy_paragraph_from_str s = Ok p -> canon_para p = true -> eguard fs (l_get p) = true ->
+  lossy_paragraph_from_str s = Ok p -> lcanon_para p = true -> eguard fs (l_get p) = true ->
   parse_lossy1 E ext_parse fs s = TOk v ->
   exists t, print_struct fs v = Some t /\ parse_lossy1 E ext_parse fs t = TOk v.
 Proof.
@@ -548,12 +553,12 @@ Proof.
   rewrite from_lossy_fields in Ev.
   assert (Hg : good false fs v').
   { eapply read_value_good; [exact Hok|exact He|exact HG|apply no_hash_guard; exact Hnh| |exact Ev].
-    intros k x Hx. cbn [dom]. apply l_get_In in Hx. unfold canon_para in Hc. destruct p; [discriminate|].
-    rewrite forallb_forall in Hc. specialize (Hc _ Hx). unfold canon_field in Hc. apply andb_true_iff in Hc. apply Hc. }
+    intros k x Hx. cbn [dom]. apply l_get_In in Hx. unfold lcanon_para in Hc. destruct p; [discriminate|].
+    rewrite forallb_forall in Hc. specialize (Hc _ Hx). unfold lcanon_field in Hc. apply andb_true_iff in Hc. apply Hc. }
   destruct (has_mandatory_key _ Hm) as (k & Hk). pose proof (read_mandatory_present _ _ _ _ _ _ Ev Hk) as Hin.
-  pose proof (good_nonempty _ _ _ _ Hg Hin) as Hcp.
+  pose proof (good_nonempty_l _ _ _ Hg Hin) as Hcp.
   exists (print_para (items_of fs v')). split; [apply (good_print false); exact Hg|].
-  unfold parse_lossy1. rewrite (lossy_reread _ Hcp). cbn [of_res]. rewrite (reread_lossy _ _ Hg). reflexivity.
+  unfold parse_lossy1. rewrite (lossy_reread_l _ Hcp). cbn [of_res]. rewrite (reread_lossy _ _ Hg). reflexivity.
 Qed.
 
 (* ================================================================== APT sources list *)
